@@ -184,7 +184,7 @@ struct Config {
 
 fn run_child(h: &serde_json::Value, cfg: &Config, stub: &Stub, bucket: &str, dir: &str) -> Option<serde_json::Value> {
     if let Some((what, n, mode)) = cfg.fault {
-        let body = if what == "put" { json!({"fail_put_nth": n, "fail_put_mode": mode, "fail_put_status": cfg.put_fault_shape.0, "fail_put_count": cfg.put_fault_shape.1}) } else { json!({"fail_get_nth": n}) };
+        let body = if what == "put" { json!({"fail_put_nth": n, "fail_put_mode": mode, "fail_put_status": cfg.put_fault_shape.0, "fail_put_count": cfg.put_fault_shape.1}) } else { json!({"fail_get_nth": n, "fail_get_status": cfg.put_fault_shape.0, "fail_get_count": cfg.put_fault_shape.1}) };
         stub.http("POST", &format!("/__control/{}", bucket), &body.to_string());
     } else {
         stub.http("POST", &format!("/__control/{}", bucket), "{}");
@@ -311,6 +311,12 @@ pub fn run(tier: &str) -> i32 {
         Config { strategy: "s3", partitions: 10, fault: Some(("put", 2, "once")), put_fault_shape: (403, 1) },
         Config { strategy: "s3_patition", partitions: 3, fault: Some(("put", 1, "once")), put_fault_shape: (500, 4) },
         Config { strategy: "s3", partitions: 10, fault: Some(("put", 1, "once")), put_fault_shape: (503, 4) },
+        // download faults that reach nun-db (not retried away inside the SDK): the 1st / 2nd object read at a restart
+        Config { strategy: "s3", partitions: 10, fault: Some(("get", 1, "once")), put_fault_shape: (403, 1) },
+        Config { strategy: "s3", partitions: 10, fault: Some(("get", 2, "once")), put_fault_shape: (403, 1) },
+        Config { strategy: "s3", partitions: 10, fault: Some(("get", 2, "once")), put_fault_shape: (500, 4) },
+        Config { strategy: "s3_patition", partitions: 3, fault: Some(("get", 1, "once")), put_fault_shape: (403, 1) },
+        Config { strategy: "s3_patition", partitions: 3, fault: Some(("get", 2, "once")), put_fault_shape: (500, 4) },
     ];
     let next = std::sync::atomic::AtomicUsize::new(0);
     let bucket_n = std::sync::atomic::AtomicUsize::new(0);
@@ -344,7 +350,7 @@ pub fn run(tier: &str) -> i32 {
                     let log: Vec<serde_json::Value> = stub.http("GET", &format!("/__log/{}", bucket), "").and_then(|b| serde_json::from_str(&b).ok()).unwrap_or_default();
                     let puts = log.iter().filter(|e| e["op"] == "PUT").count() as u64;
                     let failed_puts: Vec<&serde_json::Value> = log.iter().filter(|e| e["op"] == "PUT" && e["status"] != 200).collect();
-                    let failed_gets = log.iter().filter(|e| e["op"] == "GET" && e["status"] == 500).count();
+                    let failed_gets = log.iter().filter(|e| e["op"] == "GET" && e["status"] != 200 && e["status"] != 404).count();
                     let cfg_name = format!("{}{}", cfg.strategy, cfg.fault.map(|f| format!("+{}{}{}-{}x{}", f.0, f.1, f.2, cfg.put_fault_shape.0, cfg.put_fault_shape.1)).unwrap_or_default());
                     {
                         let mut s = st.lock().unwrap();
@@ -402,6 +408,13 @@ pub fn run(tier: &str) -> i32 {
                     for (ri, dr) in disk_restarts.iter().enumerate() {
                         let Some(sr) = s3_restarts.get(ri) else { break };
                         st.lock().unwrap().restarts_compared += 1;
+                        if sr["event"] == "restart-failed" && matches!(cfg.fault, Some(("get", _, _))) && cfg.put_fault_shape != (500, 1) && failed_gets > 0 {
+                            // a download failure that reaches nun-db (4xx, or 5xx beyond the SDK's own retries): refusing to
+                            // start is the loud outcome; what must not happen is a start that silently lacks data (compared below
+                            // when the start succeeds)
+                            shape.push_str("|start-refused-after-download-failure");
+                            break;
+                        }
                         if sr["event"] == "restart-failed" {
                             let get_fault = matches!(cfg.fault, Some(("get", _, _)));
                             v.report(json!({"check": "s3", "strategy": cfg.strategy, "problem": "restart-fails", "prefix_named_dbs": *prefix_names, "injected_get_fault": get_fault}),
